@@ -308,10 +308,53 @@ func (x *Exec) heapHavoc(st *State, key string) {
 	st.heap[key] = x.fresh(key+"_h", s)
 }
 
+// selectSimp builds (select arr idx), resolving it syntactically through stores whose index is
+// textually identical or a different numeric literal.
+func selectSimp(arr string, idx string) string {
+	for strings.HasPrefix(arr, "(store ") {
+		toks := sexprTokens(arr)
+		// ( store A i v )
+		a, j := readSexpr(toks, 2)
+		i, j2 := readSexpr(toks, j)
+		v, _ := readSexpr(toks, j2)
+		norm := func(t string) string { return strings.ReplaceAll(strings.ReplaceAll(t, "( ", "("), " )", ")") }
+		a, i, v = norm(a), norm(i), norm(v)
+		if i == idx {
+			return v
+		}
+		if isNumLit(i) && isNumLit(idx) {
+			arr = a
+			continue
+		}
+		break
+	}
+	return "(select " + arr + " " + idx + ")"
+}
+
+func isNumLit(t string) bool {
+	t = strings.TrimSuffix(strings.TrimPrefix(t, "(- "), ")")
+	if t == "" {
+		return false
+	}
+	for _, c := range t {
+		if c < '0' || c > '9' {
+			return false
+		}
+	}
+	return true
+}
+
 func (x *Exec) fieldRead(st *State, owner types.Type, f *types.Var, ref Term) Term {
 	fs := x.sortOf(f.Type())
 	key := x.fieldKey(owner, f)
 	arr := x.heapGet(st, key, arraySort(SInt, fs))
+	if strings.HasPrefix(arr.S, "(store ") && !strings.Contains(arr.S, "\"") {
+		if fs == SInt && isRefType(f.Type()) && !x.underBinder(ref.S) {
+			x.declare("(assert (>= (select "+key+"_0 "+ref.S+") 0))", "ax_ref_"+key+":"+ref.S)
+			x.heapGet(newState(), key, arraySort(SInt, fs))
+		}
+		return Term{selectSimp(arr.S, ref.S), fs}
+	}
 	if fs == SInt && isRefType(f.Type()) && !x.underBinder(ref.S) {
 		// references stored in the pre-state heap are pre-state references (>= 0)
 		x.declare("(assert (>= (select "+key+"_0 "+ref.S+") 0))", "ax_ref_"+key+":"+ref.S)
@@ -361,6 +404,9 @@ func (x *Exec) seKey(es Sort) string { return "SE_" + sanitize(string(es)) }
 
 func (x *Exec) sliceArr(st *State, h Term, es Sort) Term {
 	se := x.heapGet(st, x.seKey(es), arraySort(SInt, arraySort(SInt, es)))
+	if strings.HasPrefix(se.S, "(store ") && !strings.Contains(se.S, "\"") {
+		return Term{selectSimp(se.S, h.S), arraySort(SInt, es)}
+	}
 	return Term{"(select " + se.S + " " + h.S + ")", arraySort(SInt, es)}
 }
 
